@@ -351,6 +351,6 @@ FejerQty(I, s, w) ==
     [] I.solver = "pg"   -> RNorm2(RSub(s.x, w[1]))
 Fejer ==
   [][(Stepped /\ FejerSafe(ref) /\ FejerSafe(ref') /\ inst.solver \in {"pdhg", "fb", "pg"} /\ Admissible(inst)
-        /\ (inst.solver = "fb" => Len(inst.Ls) = 1)) =>
+        /\ (inst.solver = "fb" => Len(inst.Ls) = 1 /\ inst.ls = <<>>)) =>
        \A w \in KKTSet(inst) : SLe(FejerQty(inst, ref', w), FejerQty(inst, ref, w))]_vars
 =============================================================================
